@@ -59,9 +59,10 @@ type RModel struct {
 	xpkg   *types.Package
 	bufs   map[*Value]*strings.Builder
 
-	locksHeld int
-	onceDone  map[*Value]bool
-	syncMaps  map[*Value]*Map
+	locksHeld   int
+	onceDone    map[*Value]bool
+	onceRunning map[*Value]int
+	syncMaps    map[*Value]*Map
 }
 
 func newRModel(it *Interp) *RModel {
@@ -88,6 +89,7 @@ func (m *RModel) resetPath() {
 	m.bufs = map[*Value]*strings.Builder{}
 	m.locksHeld = 0
 	m.onceDone = nil
+	m.onceRunning = nil
 	m.syncMaps = nil
 }
 
